@@ -59,7 +59,9 @@ Inductive task :=
 Inductive event :=
 | Sent (h : host) (m : mkind) (c : cause)
 | ErrSet (h : host) (e : err)
-| Consult (n : nat) (k : ekind) (tag : Z) (retry_num : Z) (cl : option Z) (d : decision) (dcl : option Z).
+| Consult (n : nat) (h : host) (k : ekind) (tag : Z) (retry_num : Z) (cl : option Z) (d : decision) (dcl : option Z).
+(* Consult: the n-th consultation of the policy, about a failure of kind k (response tag) from host h (ghost: the policy
+   is not told the host), with the arguments retry_num and (for on_request_error) consistency; d, dcl = its answer *)
 
 Definition pstmt := (Z * Z * option Z)%type.     (* query_id, query_string, keyspace *)
 Definition policy := nat -> ekind -> Z -> Z -> option Z -> decision * option Z.
@@ -232,22 +234,24 @@ Definition tick_consult (s : state) : state :=
 (* ---------------------------------------------------------------- _set_result (h = host of the attempt) *)
 Definition uses_ks (c : config) : bool := uses_keyspace_flag (pv c).
 
+(* keyspace check + submit(_reprepare) for the statement found *)
+Definition unprep_go (c : config) (s : state) (h : host) (ps : pstmt) : state * list event :=
+  let '(_, qs, ks) := ps in
+  if negb (uses_ks c) && is_some ks && negb (opt_eqb (conn_ks s) ks)
+  then (set_exc s XKsMismatch, [])
+  else (push_task s (TReprepare h qs (if uses_ks c then ks else None)), []).
+
 Definition unprepared (c : config) (s : state) (h : host) (id tag : Z) : state * list event :=
-  let go (ps : pstmt) :=
-    let '(_, qs, ks) := ps in
-    if negb (uses_ks c) && is_some ks && negb (opt_eqb (conn_ks s) ks)
-    then (set_exc s XKsMismatch, [])
-    else (push_task s (TReprepare h qs (if uses_ks c then ks else None)), []) in
   match fut_ps c with
   | Some (pid, pqs, pks) =>
       if negb (pid =? id) then (set_exc s XAssert, [])         (* assert query_id == response.info *)
       else match lookup (known c) id with
-           | Some ps => go ps
-           | None => go (pid, pqs, pks)
+           | Some ps => unprep_go c s h ps
+           | None => unprep_go c s h (pid, pqs, pks)
            end
   | None =>
       match lookup (known c) id with
-      | Some ps => go ps
+      | Some ps => unprep_go c s h ps
       | None => (set_exc s XAttr, [])      (* log.error(... query_id.encode('hex')) raises on bytes *)
       end
   end.
@@ -261,7 +265,7 @@ Definition set_result (c : config) (s : state) (h : host) (r : resp) : state * l
       let clarg := if request_error_kind k then msg_cl s else None in
       let '(d, dcl) := pol c (nconsult s) k tag (retries s) clarg in
       let '(s1, ev) := handle_decision (tick_consult s) h k tag d dcl in
-      (s1, Consult (nconsult s) k tag (retries s) clarg d dcl :: ev)
+      (s1, Consult (nconsult s) h k tag (retries s) clarg d dcl :: ev)
   | RUnprepared id tag => unprepared c s h id tag
   | ROtherError tag => (set_exc s (XOtherError tag), [])
   | ROtherExc tag => (set_exc s (XOtherExc tag), [])
@@ -411,7 +415,7 @@ Definition enc_event (e : event) : list Z :=
   match e with
   | Sent h m _ => 1 :: h :: enc_mkind m
   | ErrSet h e => 2 :: h :: enc_err e
-  | Consult _ k tag rn cl _ _ => 3 :: enc_kind k :: tag :: rn :: enc_opt cl
+  | Consult _ _ k tag rn cl _ _ => 3 :: enc_kind k :: tag :: rn :: enc_opt cl
   end.
 Definition enc_resp (r : resp) : list Z :=
   match r with
